@@ -295,5 +295,38 @@ func TestVerif_Dispatch(t *testing.T) {
 				}
 			}
 		}
+		// quiescence: all clients returned; wait until gauges and counters stop moving (the deferred
+		// decrement runs after the client may already have its last byte)
+		emit("Stats", verifStats(stk)...)
 	})
+}
+
+func verifStats(stk *verifStack) []any {
+	col := stk.collector()
+	snap := func() string {
+		b, _ := json.Marshal([]any{col.GetConnectionStats(), col.GetEndpointStats(), col.GetProxyStats()})
+		// LastUsedNano etc. do not change without traffic
+		return string(b)
+	}
+	last := snap()
+	stable := time.Now()
+	deadline := time.Now().Add(5 * time.Second)
+	for time.Now().Before(deadline) && time.Since(stable) < 150*time.Millisecond {
+		time.Sleep(10 * time.Millisecond)
+		if cur := snap(); cur != last {
+			last, stable = cur, time.Now()
+		}
+	}
+	eps := map[string]any{}
+	es := col.GetEndpointStats()
+	cs := col.GetConnectionStats()
+	for _, be := range stk.backends {
+		for u, st := range es {
+			if strings.HasPrefix(u, be.URL()) {
+				eps[be.Name] = map[string]any{"total": st.TotalRequests, "ok": st.SuccessfulRequests, "fail": st.FailedRequests, "gauge": cs[u]}
+			}
+		}
+	}
+	ps := col.GetProxyStats()
+	return []any{"ep", eps, "proxy", map[string]any{"total": ps.TotalRequests, "ok": ps.SuccessfulRequests, "fail": ps.FailedRequests}}
 }
